@@ -445,11 +445,20 @@ func (h *hist) log(s string) {
 // admin runs an admin request; ok says whether the model expects it to be accepted.
 func (h *hist) admin(cmd string, ok bool) {
 	h.log(fmt.Sprintf("admin(%v) %s", ok, cmd))
+	// building an index on a populated table persists first (since the fix
+	// "persist before building indexes"): a state written by the request
+	// itself holds the database as it was before the request
+	before, snapBefore := h.db.GetState().Off, h.m.canon(false)
 	var e any
 	func() {
 		defer func() { e = recover() }()
 		query.DoAdmin(h.db, cmd, nil)
 	}()
+	if after := h.db.GetState().Off; after != before {
+		h.log(fmt.Sprintf("(the request persisted: state at %d)", after))
+		h.record(after, snapBefore)
+		h.cnt["persist_by_admin"]++
+	}
 	if ok && e != nil {
 		h.fail("admin request refused but the model accepts it: %s: %v", cmd, e)
 	}
